@@ -3,6 +3,8 @@ CONSTANTS
   Size = 2
   Triggers = {"f1"}
   Spawned = {"h1"}
+  Pickers = {}
+  Defect_PickOnlyEmpty = FALSE
   Closers = {"k1"}
   MaxFail = 0
   MaxKill = 1
